@@ -22,13 +22,17 @@
                     early exit or exhaustion — holds the answer Python list semantics gives on
                     `src` (this is C12's cache/history independence in its strongest form).
 
-  ASSUMPTION of every statement below: the underlying generator (`self._iter()`) never raises anything
-  but StopIteration — `next(gen)` on line 138 either yields the next value of the finite list `src`
-  or ends.  A generator that raises (e.g. a set holding a naive and an aware date) is outside the
-  model; there the real cached object differs from the uncached one afterwards (it ends up as a
-  complete EMPTY sequence, and the second operation raises the TypeError at `i < self._len` that
-  `safety` excludes under the assumption): known finding D-C11-genraise, checked by the oracle case
-  `generator_raises`.
+  ASSUMPTION of every positive statement below: the underlying generator (`self._iter()`) never raises
+  anything but StopIteration.  It is explicit in the model: `Shared.raises` says after how many values
+  the generator raises which exception, line 138 has three outcomes (`Cache.step138`: next value /
+  StopIteration with `_len` published / an exception E that escapes through the `finally`), and the
+  invariant contains `raises = none` (`SInv.noraise`; `init` builds such a state).  With
+  `raises = some (k, E)` the property is FALSE for the code, and the model proves it (examples at
+  the end, `genraise_*`): after E escaped once, the cached object takes the dead generator's
+  StopIteration for the end of the recurrence without `_len` — the next listing raises TypeError at
+  `i < self._len`, and from then on the object is a complete sequence of what happened to be cached
+  with `count()` None, while the uncached object keeps raising E.  Known finding D-C11-genraise; the
+  oracle accepts it only where the implementation does exactly what the model predicts (`query.runx`).
 
   On the tree before fix a459cd4 (no `finally: release()`), the same model has a reachable
   deadlock; the harness keeps replaying that schedule on the implementation (c11.py sample).
@@ -36,6 +40,8 @@
 import DateutilVerif.Proofs.CacheGlobal
 import DateutilVerif.Model.CacheNested
 import DateutilVerif.Proofs.CacheNestedStep
+import DateutilVerif.Proofs.CacheNestedInit
+import DateutilVerif.Proofs.CacheNestedProgress
 
 namespace C11
 open Cache Queries
@@ -246,6 +252,41 @@ theorem nested_all_complete_partial {ns0 ns : Nested.NState} (h0 : Nested.Fresh 
     rw [hd] at hl
     exact hl.2.2 hsorted hfits
 
+/-- **`Nested.init` is fresh**: the theorems above start from the state the driver builds — any member
+    sequences, any sets over them (members shared between sets and roles), any runners. -/
+theorem nested_init_fresh (memberSrcs : List (List Int)) (setDefs : List (List Nested.Slot × List Nested.Slot))
+    (qs : List (Nat × Query)) : Nested.Fresh (Nested.init memberSrcs setDefs qs false).1 :=
+  Nested.fresh_init memberSrcs setDefs qs
+
+/-- `nested_no_deadlock_partial` from `init` -/
+theorem nested_no_deadlock_init (memberSrcs : List (List Int)) (setDefs : List (List Nested.Slot × List Nested.Slot))
+    (qs : List (Nat × Query)) {ns : Nested.NState} (h : Nested.NReach (Nested.init memberSrcs setDefs qs false).1 ns)
+    (hun : ∃ r, Nested.IsRunner ns r ∧ Nested.finished ns r = false) :
+    ∃ r, Nested.IsRunner ns r ∧ (Nested.step ns r).isSome = true :=
+  nested_no_deadlock_partial (nested_init_fresh memberSrcs setDefs qs) h hun
+
+/-- **nested_progress_partial.** Every step of every runner in a reachable state decreases the measure
+    (the sum of the flat measures of all objects: each nested step is one statement of one object). -/
+theorem nested_progress_partial {ns0 ns ns' : Nested.NState} {r : Nested.Runner} {pc : PC} (h0 : Nested.Fresh ns0)
+    (h : Nested.NReach ns0 ns) (hs : Nested.step ns r = some (ns', pc)) : Nested.nmeasure ns' < Nested.nmeasure ns :=
+  Nested.nested_progress (Nested.nreach_inv h0 h) hs
+
+/-- executions of k runner steps -/
+inductive NExec (ns0 : Nested.NState) : Nat → Nested.NState → Prop
+  | init : NExec ns0 0 ns0
+  | step {k : Nat} {ns ns' : Nested.NState} {r : Nested.Runner} {pc : PC} :
+      NExec ns0 k ns → Nested.IsRunner ns r → Nested.step ns r = some (ns', pc) → NExec ns0 (k + 1) ns'
+
+/-- hence every execution is finite: its length is bounded by the measure of the state it starts from;
+    with `nested_no_deadlock_partial` it can always be continued until every runner has finished -/
+theorem nested_exec_bound {ns0 ns : Nested.NState} {k : Nat} (h0 : Nested.Fresh ns0) (h : NExec ns0 k ns) :
+    k + Nested.nmeasure ns ≤ Nested.nmeasure ns0 ∧ Nested.NReach ns0 ns := by
+  induction h with
+  | init => exact ⟨by omega, Nested.NReach.init⟩
+  | step _ hr hs ih =>
+    have := nested_progress_partial h0 ih.2 hs
+    exact ⟨by omega, Nested.NReach.step ih.2 hr hs⟩
+
 def nestedOwn := Nested.init [[0, 10, 20]] [([.cached 0], [])] [(1, .iterAll)] false
 def nestedShared := Nested.init [[0, 10, 20]] [([.cached 0], [])] [(1, .iterAll)] true
 
@@ -260,5 +301,24 @@ example : (let ns := Nested.run nestedShared.1 nestedShared.2 (List.replicate 40
 example : (let ns := Nested.run nestedOwn.1 nestedOwn.2 (List.replicate 150 0)
            (Nested.finished ns (1, 0), ns.sets.map (fun S => S.st.sh.cache), Nested.deadlocked ns nestedOwn.2))
           = (true, [[0, 10, 20]], false) := by decide +kernel
+
+/-! ### the underlying generator raises: cached ≠ uncached (D-C11-genraise), proved on the model -/
+
+-- the witness shape (the generator raises before its first value): list, list, list, count(), in
+example : runRaising [] 0 .TypeError (initRaising [] 0 .TypeError) [.iterAll, .iterAll, .iterAll, .count, .contains 5]
+          = [.err .TypeError, .err .TypeError, .list [], .val none, .bool false] := by decide +kernel
+example : [Query.iterAll, .iterAll, .iterAll, .count, .contains 5].map (fun q => genRaising q [] 0 .TypeError)
+          = [.err .TypeError, .err .TypeError, .err .TypeError, .err .TypeError, .err .TypeError] := by decide
+
+/-- **genraise_cached_differs.** For a generator that raises E after 11 of 12 values: an index query is answered from
+    the first batch; the listing raises E; the NEXT listing raises TypeError (`i < self._len` with `_len` None) although
+    the uncached rule raises E again; then the object pretends to be the 11 cached values with `count()` None. -/
+theorem genraise_cached_differs :
+    runRaising [0, 1, 2, 3, 4, 5, 6, 7, 8, 9, 10, 11] 11 .ZeroDivisionError
+        (initRaising [0, 1, 2, 3, 4, 5, 6, 7, 8, 9, 10, 11] 11 .ZeroDivisionError) [.index 3, .iterAll, .iterAll, .count, .iterAll]
+      = [.val (some 3), .err .ZeroDivisionError, .err .TypeError, .val none, .list [0, 1, 2, 3, 4, 5, 6, 7, 8, 9, 10]] ∧
+    [Query.index 3, .iterAll, .iterAll, .count, .iterAll].map (fun q => genRaising q [0, 1, 2, 3, 4, 5, 6, 7, 8, 9, 10, 11] 11 .ZeroDivisionError)
+      = [.val (some 3), .err .ZeroDivisionError, .err .ZeroDivisionError, .err .ZeroDivisionError, .err .ZeroDivisionError] := by
+  decide +kernel
 
 end C11
